@@ -1,10 +1,12 @@
 //! Native replayer: runs SimpleSL programs through the PUBLIC API of the real crate
 //! (path dependency on /repo's current working tree) and reports what happened.
-//! Protocol (stdin, one case per line):  <id> TAB <mode> TAB <hex(utf8 program)>
+//! Protocol (stdin, one case per line):  <id> TAB <mode> TAB <hex(utf8 program)> TAB <vars>
 //!   mode = "std" | "nostd"
+//!   vars = `;`-separated `name=i:<i64>` | `name=f:<u64 bits>` | `name=b:<0|1>` bound in the interpreter
+//!          the program is parsed against (so they are constants to the optimizer) and run in
 //! Output (stdout): <id> TAB <status> TAB <hex(utf8 debug rendering or message)>
 //!   status = ok | parse_error | exec_error | panic
-use simplesl::{Code, Interpreter};
+use simplesl::{Code, Interpreter, variable::Variable};
 use std::io::{BufRead, Write};
 use std::panic::{AssertUnwindSafe, catch_unwind};
 
@@ -25,24 +27,45 @@ fn main() {
     for line in stdin.lock().lines() {
         let line = line.unwrap();
         let parts: Vec<&str> = line.split('\t').collect();
-        if parts.len() != 3 {
+        if parts.len() < 3 {
             continue;
         }
         let (id, mode, prog) = (parts[0], parts[1], unhex(parts[2]));
-        let res = catch_unwind(AssertUnwindSafe(|| {
-            let interpreter = if mode == "std" {
+        let vars: Vec<(String, Variable)> = parts
+            .get(3)
+            .map(|v| {
+                v.split(';')
+                    .filter(|x| !x.is_empty())
+                    .map(|x| {
+                        let (name, val) = x.split_once('=').unwrap();
+                        let (kind, val) = val.split_once(':').unwrap();
+                        let var = match kind {
+                            "i" => Variable::Int(val.parse::<i64>().unwrap()),
+                            "f" => Variable::Float(f64::from_bits(val.parse::<u64>().unwrap())),
+                            _ => Variable::Bool(val == "1"),
+                        };
+                        (name.to_string(), var)
+                    })
+                    .collect()
+            })
+            .unwrap_or_default();
+        let mk = |mode: &str| {
+            let mut i = if mode == "std" {
                 Interpreter::with_stdlib()
             } else {
                 Interpreter::without_stdlib()
             };
+            for (n, v) in &vars {
+                i.insert(n.as_str().into(), v.clone());
+            }
+            i
+        };
+        let res = catch_unwind(AssertUnwindSafe(|| {
+            let interpreter = mk(mode);
             match Code::parse(&interpreter, &prog) {
                 Err(e) => ("parse_error", format!("{e}")),
                 Ok(code) => {
-                    let mut run = if mode == "std" {
-                        Interpreter::with_stdlib()
-                    } else {
-                        Interpreter::without_stdlib()
-                    };
+                    let mut run = mk(mode);
                     match code.exec_unscoped(&mut run) {
                         Ok(v) => ("ok", format!("{v:?}")),
                         Err(e) => ("exec_error", format!("{e}")),
